@@ -1242,7 +1242,8 @@ func (i *Input) deserialize(buf *bytes.Buffer) error {
 			publicKey := kp.Key.KeyData[:32]
 			leafHash := kp.Key.KeyData[32:]
 			for _, tapScriptSig := range i.TapScriptSig {
-				if bytes.Equal(tapScriptSig.PubKey, publicKey) {
+				if bytes.Equal(tapScriptSig.PubKey, publicKey) &&
+					bytes.Equal(tapScriptSig.LeafHash, leafHash) {
 					return ErrInDuplicatedField("taproot script signature")
 				}
 			}
